@@ -1028,15 +1028,7 @@ impl Server {
         if errored {
             return;
         }
-        // an exchange that stayed at the application for as long as the cache
-        // expiry: what the handler remembered of the request (the client's
-        // size wish) may be gone by the time the response comes through.  C10
-        // quantifies over budgets, overheads and client sizes, not over an
-        // expiry shorter than the application's processing time.
-        if arr.time_done.saturating_sub(arr.time) >= self.cfg.expiry_ns {
-            stats.hit("c10.out-of-premise.expiry-inside-exchange");
-            return;
-        }
+
         let app_own_b2 = arr.app.as_ref().map_or(false, |_| {
             // the application set its own Block2 iff the handler left it
             // alone; tracked through the resource spec
@@ -1118,6 +1110,17 @@ impl Server {
             self.last_b2_toklen.insert((from, b2key.clone()), resp.message.get_token().len());
         }
         if arr.app.is_some() {
+            // an exchange that stayed at the application for as long as the
+            // cache expiry: what the handler remembered of the request (the
+            // client's size wish) may be gone by the time the response comes
+            // through.  C10 quantifies over budgets, overheads and client
+            // sizes, not over an expiry shorter than the application's
+            // processing time.  (The size the server used is recorded above
+            // all the same: later requests are judged against it.)
+            if arr.time_done.saturating_sub(arr.time) >= self.cfg.expiry_ns {
+                stats.hit("c10.out-of-premise.expiry-inside-exchange");
+                return;
+            }
             // the application's reply went through intercept_response
             let Some(ov) = arr.resp_overhead else { return };
             let in_premise = m <= 1280 && m >= ov + 28;
